@@ -39,14 +39,18 @@ def history(rng, arch, nops, name):
     unws = {"U0": set()}
     kinds = {}
     pool = []
+    cacheable = set()          # lookup addresses whose rule is certainly cacheable (standard rows / no module)
     for m in mods:
         for f in m["fdes"]:
             a0 = f["start"] - m["bs"] + m["start"]
             for off, _ in f["rows"]:
                 pool.append(a0 + off + 1)
                 pool.append(a0 + off + 1 + 509)        # same slot, other address
+            if len(f["rows"]) == 1 or f["rows"][1][0] > 1:
+                cacheable.add(a0 + 1)                  # inside the first (standard) row
             pool.append(a0 + f["len"])                 # just past the FDE
     pool += [0x5, 0x9000, 0x20000 + 509 * 3]
+    cacheable |= {0x5, 0x9000}
     for _ in range(nops):
         c = rng.below(20)
         u = rng.choice(sorted(unws))
@@ -73,7 +77,8 @@ def history(rng, arch, nops, name):
                        tag="%s:%s:%s" % (arch, kind, memid))
             s.add("newcache F")
             l2 = s.add("unwind %s F %s %s %s %s" % (u, kind, hx(addr), regs, memid))
-            s.meta[l1] = {"twin": l2}
+            s.meta[l1] = {"twin": l2, "x": x, "cacheable": x in cacheable}
+            s.meta[l2] = {"x": x, "cacheable": x in cacheable}
     return name, s
 
 def generate(rng, tier):
